@@ -111,7 +111,13 @@ theorem adjustLower_frame (combine : Nat → Word → Nat) (ar : Rat) (g : List 
 /-- the representation invariant is transported along a frame step -/
 theorem TabInv.of_sameT {combine : Nat → Word → Nat} {N : Nat} {caps : Nat → Nat} {keys tops : List Key} {s s' : St}
     (inv : TabInv combine N caps keys tops s) (st : SameT s s') : TabInv combine N caps keys tops s' := by
-  refine ⟨st.midlen.trans inv.midlen, ?_⟩
+  have htt : ∀ m, (tbl N s' m).t = (tbl N s m).t ∧ (tbl N s' m).pay.length = (tbl N s m).pay.length := by
+    intro m
+    unfold tbl
+    by_cases hm : m = N
+    · simp [hm, st.longest]
+    · simp only [hm, ↓reduceIte]; exact st.mid (m - 2)
+  refine ⟨st.midlen.trans inv.midlen, ?_, fun m h2 hN => by rw [(htt m).1]; exact inv.below m h2 hN⟩
   intro m h2 hN
   obtain ⟨M, oi, hmem, hent, hcap⟩ := inv.tabs m h2 hN
   have ht : (tbl N s' m).t = (tbl N s m).t ∧ (tbl N s' m).pay.length = (tbl N s m).pay.length := by
